@@ -1,7 +1,11 @@
 package props
 
 import (
+	"encoding/json"
+	"errors"
 	"fmt"
+	"io"
+	"net/http"
 	"sort"
 	"strings"
 	"sync"
@@ -36,7 +40,7 @@ type c07Scenario struct {
 func c07Gen(c *Ctx) *c07Scenario {
 	g := c.G
 	sc := &c07Scenario{}
-	sc.Shape = []string{"influx", "log", "alert", "loopback", "fork", "join", "failnode", "union", "batch", "failnode2"}[g.Intn(10)]
+	sc.Shape = []string{"influx", "log", "alert", "loopback", "fork", "join", "failnode", "union", "batch", "failnode2", "httppost"}[g.Intn(11)]
 	sc.Waiter = g.Bool()
 	sc.InfluxBuf = []int{1000, 1, 2, 5}[g.Intn(4)]
 	sc.FlushMs = []int{10000, 1, 50}[g.Intn(3)]
@@ -72,6 +76,9 @@ func c07Gen(c *Ctx) *c07Scenario {
 	switch sc.Shape {
 	case "influx":
 		sc.Script = "stream\n    |from().measurement('m')\n    " + in + out(0) + "\n"
+	case "httppost":
+		// the node posts every point to an HTTP endpoint (http.DefaultClient; its transport is the recording sink here)
+		sc.Script = "stream\n    |from().measurement('m')\n    " + in + "|httpPost('http://sink.invalid/points')\n"
 	case "log":
 		sc.Script = "stream\n    |from().measurement('m')\n    " + in + "|eval(lambda: \"v\" + 1).as('v1').keep()\n    |log().prefix('A/0')\n"
 	case "failnode":
@@ -147,6 +154,13 @@ func runC07(c *Ctx) Verdict {
 			time.Sleep(time.Duration(sc.SlowSink) * time.Microsecond)
 			simrt.Count("fault.sink.slow")
 		}
+	}
+	closeAlertAtOnce := sc.Stop == "close" && len(sc.Writers)%2 == 1 // (half of the close cases; no extra draw from the tape)
+	posted := &c07Transport{slow: slow}
+	if sc.Shape == "httppost" {
+		old := http.DefaultClient.Transport
+		http.DefaultClient.Transport = posted
+		defer func() { http.DefaultClient.Transport = old }()
 	}
 	res := c.World(cfg, func() {
 		var err error
@@ -257,6 +271,13 @@ func runC07(c *Ctx) Verdict {
 			d.TM.DeleteTask("A")
 		case "close":
 			d.TM.Close()
+			if closeAlertAtOnce {
+				// a daemon shutting down closes its services one after the other without waiting for anything to
+				// settle in between: what the topic handlers still have queued is owed to them all the same
+				done()
+				done = simrt.Expect("alert service close", 3_000_000, 24*time.Hour)
+				d.Alert.Close()
+			}
 		}
 		done()
 		simrt.Fair()
@@ -264,7 +285,7 @@ func runC07(c *Ctx) Verdict {
 		wg.Wait()
 		done()
 		simrt.WaitIdle()
-		if sc.Stop == "close" {
+		if sc.Stop == "close" && !closeAlertAtOnce {
 			done = simrt.Expect("alert service close", 3_000_000, 24*time.Hour)
 			d.Alert.Close()
 			done()
@@ -339,6 +360,12 @@ func runC07(c *Ctx) Verdict {
 			}
 		}
 		outs = append(outs, o)
+	}
+	if sc.Shape == "httppost" {
+		if posted.bad != "" {
+			return Fail("corrupt", "httpPost request: %s", posted.bad)
+		}
+		outs = append(outs, output{name: "httpPost endpoint", seen: posted.seen})
 	}
 	switch sc.Shape {
 	case "log", "fork", "join", "union":
@@ -445,6 +472,59 @@ func runC07(c *Ctx) Verdict {
 		}
 	}
 	return Pass()
+}
+
+// c07Transport stands in for the network below http.DefaultClient: it records the points of each POST, takes its time on
+// the virtual clock and gives up, as a real transport does, when the request's context is cancelled.
+type c07Transport struct {
+	slow func()
+	seen [][2]int
+	bad  string
+}
+
+func (t *c07Transport) RoundTrip(req *http.Request) (*http.Response, error) {
+	if !simrt.Active() {
+		return nil, errors.New("the simulated process is gone")
+	}
+	body, _ := io.ReadAll(req.Body)
+	req.Body.Close()
+	if err := req.Context().Err(); err != nil {
+		return nil, err
+	}
+	t.slow()
+	if err := req.Context().Err(); err != nil {
+		return nil, err
+	}
+	var doc struct {
+		Series []struct {
+			Columns []string        `json:"columns"`
+			Values  [][]interface{} `json:"values"`
+		} `json:"series"`
+	}
+	if err := json.Unmarshal(body, &doc); err != nil {
+		t.bad = fmt.Sprintf("%v: %s", err, truncateStr(string(body), 200))
+	}
+	for _, se := range doc.Series {
+		wi, si := -1, -1
+		for i, c := range se.Columns {
+			if c == "w" {
+				wi = i
+			}
+			if c == "s" {
+				si = i
+			}
+		}
+		for _, row := range se.Values {
+			if wi < 0 || si < 0 || wi >= len(row) || si >= len(row) {
+				t.bad = "a posted row without identity fields: " + truncateStr(string(body), 200)
+				continue
+			}
+			w, _ := row[wi].(float64)
+			s, _ := row[si].(float64)
+			t.seen = append(t.seen, [2]int{int(w), int(s)})
+		}
+	}
+	return &http.Response{StatusCode: 200, Status: "200 OK", Header: http.Header{}, Body: io.NopCloser(strings.NewReader("")), Request: req}, nil
 }
 
 func firstN(ss []string, n int) []string {
